@@ -146,6 +146,8 @@ pub fn gen(prop: &str, scen: &str, _k: u64, seed: u64, tier: &str) -> Case {
             // padding pattern: per gap a number of zero bytes
             case.set("pad_seed", (r_in.next_u64() >> 1) as i64);
             case.set("bad_padding", if r_f.pct(25) { 1 } else { 0 });
+            // multi-stream decoding disabled: what follows the first stream is not ours to judge
+            case.set("garbage_after_first", if r_f.pct(40) { 1 } else { 0 });
             case.rbufs = random_rbufs(&mut r_ops);
             case.src_policy = if r_f.pct(50) { benign_policy(&mut r_f) } else { IoPolicy::default() };
             case.input = InputSpec::new("text", if big { 20000 } else { 6000 }, r_in.next_u64());
@@ -669,7 +671,10 @@ fn concat(case: &Case, base: &[u8], ctx: &mut Ctx) -> Option<Violation> {
     let mut expect_all = Vec::new();
     let mut expect_first = Vec::new();
     let bad = case.knob("bad_padding") != 0 && xz;
-    let bad_gap = if n > 1 { prng.urange(0, n - 2) } else { usize::MAX };
+    // the malformed padding may also be the one behind the last stream
+    let bad_gap = prng.urange(0, n - 1);
+    let multi = case.knob_or("multi", 1) != 0 || !xz;
+    let garbage = xz && !multi && case.knob("garbage_after_first") != 0;
     let mut made_bad = false;
     for i in 0..n {
         let mut sub = Case { fmt: case.fmt.clone(), ..Default::default() };
@@ -702,7 +707,21 @@ fn concat(case: &Case, base: &[u8], ctx: &mut Ctx) -> Option<Violation> {
         }
         if xz {
             // stream padding after this stream (also after the last one)
-            let pad = if bad && i == bad_gap && i + 1 < n {
+            if garbage && i == 0 {
+                // single-stream mode: arbitrary bytes behind the first stream (an archive member,
+                // malformed padding, ...) are neither consumed nor required
+                let g = prng.urange(1, 40);
+                let mut junk = vec![0u8; g];
+                prng.fill(&mut junk);
+                if prng.pct(50) {
+                    let z = prng.urange(1, 7).min(g);
+                    junk[..z].iter_mut().for_each(|b| *b = 0);
+                }
+                file.extend_from_slice(&junk);
+                ctx.fire("garbage_behind_first_stream", 1);
+                break;
+            }
+            let pad = if bad && i == bad_gap {
                 made_bad = true;
                 *prng.pick(&[1usize, 2, 3, 5, 6, 7])
             } else {
@@ -715,7 +734,6 @@ fn concat(case: &Case, base: &[u8], ctx: &mut Ctx) -> Option<Violation> {
     ctx.metric("streams", n as u64);
     ctx.nontrivial = n > 1;
     let comp = reader_component(case);
-    let multi = case.knob_or("multi", 1) != 0 || !xz;
     let d = decode(case, &Arc::new(file), &case.src_policy, &[], expect_all.len(), expect_all.len() + (1 << 20), ctx.keep_log);
     ctx.absorb("source", &d.stats);
     if let Some(v) = universal_decode_violation(case, &d) {
